@@ -30,6 +30,10 @@ NA = {
 
 # property -> (level, text, note, technique, design_ref, engine)
 CHECKS = {
+ "C01": ("exploration",
+         "Seeded operation histories on every local store configuration (memory view, file-manifest store, journaling store, generational old+new+ghost; GC into table files and archives; conjoin; clean reopen), including genuine 8-byte-prefix collision pairs and absent addresses adjacent to stored ones; after every read step the five read paths are compared with a chunk model and with each other, full iteration with the model; a fault-injecting configuration adds EIO on file reads (errors allowed, wrong bytes never).",
+         "Sampling of histories (seeded search). Background conjoin is awaited after each operation so that a run is deterministic. Two known findings (16-byte address prefix of index-loaded journal chunks) are listed in known_findings.txt.",
+         "deterministic simulation: seeded stateful histories over real stores vs. reference chunk model, read-fault injection at the OS seam", "DESIGN.md §6.1 C01", "dsim-store"),
  "C04": ("fault_enumeration",
          "For each seeded journal history the index file is replaced by every variant of a catalogue (missing, empty, valid, every truncation point, every byte flipped, random bytes, stale index of each earlier clean close, index of another journal, checksum-valid-but-wrong ranges, EIO on read); the store is opened read-write and read-only and must show the same root and the same readable chunks (byte for byte) as with no index; the read-only open must issue no mutating file operation (observed at the simulated OS).",
          "Forged indexes (checksums recomputed over altered contents) are probes only. Two known findings (lookup offset/length not covered by the batch CRC) are listed in known_findings.txt.",
